@@ -72,6 +72,7 @@ pub fn run(run: &mut Run) -> PResult {
         let hands: Vec<[u32; 2]> = card::DECK.iter().flat_map(|a| card::DECK.iter().filter(move |b| *b != a).map(move |b| [*a, *b])).collect();
         disturbance_pass(run, &hands, &|h| pair_clause(h[0], h[1]), &|h| ("C17.chen".into(), hand_json(h), card::render_hand(h)))?;
     }
+    count_soak(run, "Chen scores", (1 << 25) + (1 << 12), &soak_step)?;
     for w in card::DECK {
         if let Err(m) = points_clause(w) {
             run.generator("per-card points", "exhaustive", Some(52), 52, 52, "");
@@ -148,7 +149,10 @@ pub fn run(run: &mut Run) -> PResult {
 }
 
 pub fn check_case(clause: &str, case: &Value) -> Result<(), String> {
-    if clause.ends_with(".after_disturbance") || clause.ends_with(".concurrent") || clause.ends_with(".concurrent_cold_start") {
+    if clause.ends_with(".soak") {
+        return replay_soak(case, &soak_step);
+    }
+    if clause.ends_with(".after_disturbance") || clause.ends_with(".concurrent") || clause.ends_with(".concurrent_cold_start") || clause.ends_with(".after_repetition") {
         return super::common::replay_after_disturbance(case, check_case);
     }
     match clause {
@@ -176,4 +180,17 @@ pub fn check_case(clause: &str, case: &Value) -> Result<(), String> {
 #[allow(dead_code)]
 fn _u(t: &Two) -> bool {
     t.is_valid()
+}
+
+/// soak step n: the score of the hand (n mod 52, another card)
+pub fn soak_step(n: u64) -> Result<(), String> {
+    let a = card::DECK[(n % 52) as usize];
+    let b = card::DECK[((n % 52 + 1 + (n / 52) % 51) % 52) as usize];
+    let (r1, s1) = card::decode(a).unwrap();
+    let (r2, s2) = card::decode(b).unwrap();
+    let got = Two::new(a, b).chen_formula() as i32;
+    if got != chen::chen(r1, s1, r2, s2) {
+        return Err(format!("chen_formula on [{} {}] = {}, Chen's formula gives {}", card::render(a), card::render(b), got, chen::chen(r1, s1, r2, s2)));
+    }
+    Ok(())
 }
